@@ -7,6 +7,8 @@
 package dtls
 
 import (
+	"sync/atomic"
+
 	dtlsstate "github.com/pion/dtls/v3/internal/state"
 	"github.com/pion/dtls/v3/pkg/protocol/handshake"
 )
@@ -119,4 +121,18 @@ func VerifTrafficSecrets(c *Conn) (write, read map[uint16][]byte) {
 	}
 
 	return s13.TrafficKeys.VerifSecrets()
+}
+
+// VerifSkipLocalSeq advances the next record number of the current sending epoch by n. For the
+// peer this is indistinguishable from n application records that the network lost, which lets a
+// simulated session reach large record numbers without paying for every record.
+func VerifSkipLocalSeq(c *Conn, n uint64) {
+	c.lock.Lock()
+	defer c.lock.Unlock()
+	common := dtlsstate.CommonState(c.state)
+	epoch := common.LocalEpoch()
+	for len(common.LocalSequenceNumber) <= int(epoch) {
+		common.LocalSequenceNumber = append(common.LocalSequenceNumber, uint64(0))
+	}
+	atomic.AddUint64(&common.LocalSequenceNumber[epoch], n)
 }
